@@ -558,22 +558,7 @@ EDITS["edit_drops_norms"] = [
 	}
 	free_cache (p);'''),
 ]
-EDITS["simplex_reload_frees_other_norms"] = [
- ("qsopt_ex/simplex.c", '''			else
-				EGLPNUM_TYPENAME_EGlpNumFreeArray (pinf->dsinfo.norms);
-		}''', '''			else
-				EGLPNUM_TYPENAME_EGlpNumFreeArray (pinf->dsinfo.norms);
-			/* norms kept for the other algorithm describe an older basis (and size) */
-			EGLPNUM_TYPENAME_EGlpNumFreeArray (pinf->psinfo.norms);
-		}'''),
- ("qsopt_ex/simplex.c", '''			else
-				EGLPNUM_TYPENAME_EGlpNumFreeArray (pinf->psinfo.norms);
-		}''', '''			else
-				EGLPNUM_TYPENAME_EGlpNumFreeArray (pinf->psinfo.norms);
-			/* norms kept for the other algorithm describe an older basis (and size) */
-			EGLPNUM_TYPENAME_EGlpNumFreeArray (pinf->dsinfo.norms);
-		}'''),
-]
+# "simplex_reload_frees_other_norms" (free the other algorithm's norms when a basis is reloaded) was superseded by the central fix 8e48cd4
 EDITS["addrows_rownorms_realloc"] = [
  # ILLlp_basis.rownorms_size is never assigned: the guard reads an uninitialised int and skips the reallocation
  ("qsopt_ex/lib.c", '''		if (B->rownorms_size < lp->O->nrows + num)
@@ -639,4 +624,11 @@ EDITS["copy_prob_objname"] = [
 		CHECKRVALG (rval, CLEANUP);
 	}
 '''),
+]
+
+EDITS["delrows_cache_guard"] = [
+ # DESIGN 10 #18: the cached solution stays optimal for the reduced LP only if the deleted rows have zero duals
+ # (reproduced: solve, QSload_basis_array(slack basis), QSdelete_row of a tight row with pi < 0 -> stale OPTIMAL served)
+ ("qsopt_ex/lib.c", '''			if (C && EGLPNUM_TYPENAME_EGlpNumIsLess (EGLPNUM_TYPENAME_DFEAS_TOLER, C->pi[j]))''',
+  '''			if (C && EGLPNUM_TYPENAME_EGlpNumIsNeqZero (C->pi[j], EGLPNUM_TYPENAME_DFEAS_TOLER))'''),
 ]
